@@ -377,12 +377,14 @@ def chunk_sizes_for(ctx, pair):
 def gen_direct(ctx):
     r = ctx.rng
     cases = []
-    for k in range(ctx.n(40, 400)):
+    for k in range(ctx.n(81, 450)):
         mode = k % 9
         nl, np_ = r.randint(1, 7), r.randint(1, 7)
         if mode == 7:
             nl, np_ = r.choice([(1, 1), (1, 5), (4, 1), (2, 2)])
         H, W = r.randint(1, 6), r.randint(1, 6)
+        if mode == 8:
+            nl, np_, H, W = r.choice([1, 2, 3, 5]), r.choice([1, 2, 4, 6]), r.randint(3, 8), r.randint(3, 8)
         a, b, c, e = [r.randint(-6, 6) / 2.0 for _ in range(4)]
         if mode in (0, 1, 2, 7) and c * b - e * a == 0:
             a, b, c, e = 0.0, 1.5, -2.0, 0.5
